@@ -208,6 +208,8 @@ class Recorder:
                       branch=[[str(b.get("ID", "")), b.get("Index", -1), b.get("Length", -1), b.get("Range", "")]
                               for b in br if isinstance(b, dict)],
                       bparent=(br[-1].get("Parent", "") if br and isinstance(br[-1], dict) else "") or "",
+                      stype=w.state_type((ctx.get("StateMachine") or {}).get("Id", "") if isinstance(ctx.get("StateMachine"), dict) else "",
+                                         st.get("Name") or ""),
                       retry=st.get("RetryCount", 0) or 0, shared=(key in w.shared_queues),
                       smid=(ctx.get("StateMachine") or {}).get("Id", "") if isinstance(ctx.get("StateMachine"), dict) else "",
                       data=ev.get("data") if isinstance(ev, dict) else None, **base)
@@ -432,6 +434,15 @@ class World:
     def is_reply_queue(self, q):
         return q.startswith(self.reply_prefix)
 
+    def state_type(self, sm, name):
+        """Type of state `name` of machine `sm` ("" = the start event), from the definitions added"""
+        d = getattr(self, "_types", {}).get(sm)
+        if d is None:
+            return ""
+        if name == "":
+            return d.get(d.get("", ""), "")       # a start event is handled by the StartAt state
+        return d.get(name, "")
+
     def i0(self):
         return self.inst["i0"]
 
@@ -465,6 +476,9 @@ class World:
                 if I is not None:
                     I.engine.asl_store.store[arn] = json.loads(json.dumps(recd))
         self.rec.emit("sm", arn=arn, smtype=typ, mc=_map_concurrency(asl))
+        if not hasattr(self, "_types"):
+            self._types = {}
+        self._types[arn] = _state_types(asl)
         return arn
 
     def start_raw(self, arn, data, name=None, via_inst="i0", with_name=True):
@@ -823,6 +837,26 @@ def _map_concurrency(asl):
                     walk(st[key]["States"])
     if isinstance(asl, dict) and isinstance(asl.get("States"), dict):
         walk(asl["States"])
+    return out
+
+
+def _state_types(asl):
+    out = {}
+
+    def walk(states):
+        for n, st in states.items():
+            if not isinstance(st, dict):
+                continue
+            out[n] = st.get("Type", "")
+            for b in st.get("Branches", []) or []:
+                if isinstance(b, dict) and isinstance(b.get("States"), dict):
+                    walk(b["States"])
+            for key in ("Iterator", "ItemProcessor"):
+                if isinstance(st.get(key), dict) and isinstance(st[key].get("States"), dict):
+                    walk(st[key]["States"])
+    if isinstance(asl, dict) and isinstance(asl.get("States"), dict):
+        walk(asl["States"])
+        out[""] = asl.get("StartAt", "") if isinstance(asl.get("StartAt", ""), str) else ""
     return out
 
 
